@@ -7,8 +7,8 @@ mod gen;
 mod progrun;
 mod streams;
 mod proggen;
+mod watch;
 
-use std::io::Write;
 
 fn main() {
     let args: Vec<String> = std::env::args().collect();
@@ -21,13 +21,10 @@ fn main() {
     let stream = args[2].as_str();
     let seed: u64 = args[3].parse().expect("seed");
     let count: u64 = args[4].parse().expect("count");
-    let file = std::fs::File::create(&args[5]).expect("create outfile");
-    let mut out = std::io::BufWriter::new(file);
+    watch::init(&args[5], format!("{} {}", stream, seed));
     let extra: Vec<String> = args[6..].to_vec();
     let mut rng = rng::Rng::new(seed);
-    let mut emit = |req: String, res: String| {
-        writeln!(out, "{}\t{}", req.replace('\t', " ").replace('\n', " "), res.replace('\t', " ").replace('\n', "\\n")).unwrap();
-    };
+    let mut emit = |req: String, res: String| watch::emit(req, res);
     match stream {
         "graph-exhaustive" => {
             // count = number of nodes; all graphs with 0..=count nodes
@@ -52,6 +49,7 @@ fn main() {
         "literal" => streams::literal(&mut rng, count, &mut emit),
         "table" => streams::table(&mut rng, count, &mut emit),
         "options" => streams::options(&mut rng, count, &mut emit),
+        "reorder" => streams::reorder(&mut rng, count, &mut emit),
         "dump" => streams::dump(&mut rng, count, &mut emit),
         "disasm" => streams::disasm(&mut rng, count, &mut emit),
         "trace" => streams::trace(&mut rng, count, &mut emit),
@@ -61,4 +59,5 @@ fn main() {
         "prog" => streams::prog(&mut rng, count, extra.get(0).map(|s| s.as_str()).unwrap_or("dag"), &mut emit),
         _ => { eprintln!("unknown stream {}", stream); std::process::exit(2); }
     }
+    watch::finish();
 }
